@@ -420,15 +420,14 @@ theorem removeTag_err_kind {b : View} {l : Layer} {id : Id} {k : Key} {e : Err} 
 /-- **one call on both sides**: same answer, and the two worlds keep agreeing -/
 theorem prim_step {v0 b : View} {o : Oracle} {c l : Layer} (p : Prim)
     (hv0 : v0.IdsOK) (hv0l : v0.LocOK) (hb : b.IdsOK) (hbl : b.LocOK) (hs : Sim v0 b c l)
-    (href : ∀ f, p = .feat f →
-      sameRefs ((c.view v0 (c.loc v0)).refs f.id) ((l.view b (l.loc b)).refs f.id) = true) :
+    (hfeat : ∀ f, p = .feat f → (c.addFeature v0 o f).2 = (l.addFeature b o f).2) :
     (p.apply v0 o c).2 = (p.apply b o l).2 ∧ Sim v0 b (p.apply v0 o c).1 (p.apply b o l).1 := by
   have hsome : ∀ x, (c.find v0 x).isSome = (l.find b x).isSome := fun x => by
     have := (cw_gagree hs.cw (l.loc b) (c.loc v0)).isSome x; simpa [find_view] using this
   cases p with
   | feat f =>
     simp only [Prim.apply]
-    have hv := addFeature_same_verdict (o := o) hs.cw (href f rfl)
+    have hv := hfeat f rfl
     have e1' : c.addFeature v0 o f = ((c.addFeature v0 o f).1, (c.addFeature v0 o f).2) := rfl
     have e2' : l.addFeature b o f = ((l.addFeature b o f).1, (l.addFeature b o f).2) := rfl
     refine ⟨hv, ?_, featsId_addFeature hs.cFeats e1', featsId_addFeature hs.lFeats e2'⟩
@@ -497,7 +496,8 @@ theorem prims_faithful {v0 b : View} {o : Oracle} (hv0 : v0.IdsOK) (hv0l : v0.Lo
     have href : ∀ f, p = .feat f →
         sameRefs ((c.view v0 (c.loc v0)).refs f.id) ((l.view b (l.loc b)).refs f.id) = true := by
       intro f hp; subst hp; exact hlock.1
-    obtain ⟨hv, hs'⟩ := prim_step (o := o) p hv0 hv0l hb hbl hs href
+    obtain ⟨hv, hs'⟩ := prim_step (o := o) p hv0 hv0l hb hbl hs
+      (fun f hp => addFeature_same_verdict hs.cw (href f hp))
     simp only [applyPrims]
     cases hc : p.apply v0 o c with
     | mk c' rc =>
